@@ -107,6 +107,35 @@ theorem keys_assign_subset (key : α → Nat) (val : α → β) (l : List α) :
       · have := ih k hk; simp only [List.map_append, List.mem_append]; exact Or.inl this
       · simp [hk]
 
+/-- every entry of the dict was written for some element: its key and value are that element's -/
+theorem mem_assign (key : α → Nat) (val : α → β) (l : List α) :
+    ∀ e ∈ assign key val l, ∃ x ∈ l, e = (key x, val x) := by
+  induction l using snoc_induction with
+  | nil => simp [assign]
+  | snoc l x ih =>
+    rw [assign_snoc]
+    intro e he
+    have hcases : e = (key x, val x) ∨ e ∈ assign key val l := by
+      generalize assign key val l = d at he ⊢
+      induction d with
+      | nil => simp [setKey] at he; exact Or.inl he
+      | cons y ys ihd =>
+        simp only [setKey] at he
+        split at he
+        · rename_i hk
+          rcases List.mem_cons.mp he with rfl | he
+          · left; rw [hk]
+          · right; simp [he]
+        · rcases List.mem_cons.mp he with rfl | he
+          · right; simp
+          · rcases ihd he with h | h
+            · exact Or.inl h
+            · right; simp [h]
+    rcases hcases with rfl | he
+    · exact ⟨x, by simp, rfl⟩
+    · obtain ⟨y, hy, rfl⟩ := ih e he
+      exact ⟨y, by simp [hy], rfl⟩
+
 /-- if assignments come with non-decreasing keys, the dict's keys are strictly increasing -/
 theorem keys_assign_sorted (key : α → Nat) (val : α → β) (l : List α)
     (h : (l.map key).Pairwise (· ≤ ·)) : ((assign key val l).map (·.1)).Pairwise (· < ·) := by
@@ -784,6 +813,56 @@ theorem tableFrame_of_tabHolds {rows : Nat → List (List (Nat × Val))} {s : St
         obtain ⟨cv, hm, rfl⟩ := List.mem_map.mp hc
         rw [h t tab hl cv hm]; simp
       · simpa using he
+
+/-! ### the declared tables are the known tables, for ever -/
+
+theorem initTables_lookup (tables : List (Nat × List Nat)) (acc : List (Nat × Table)) (t : Nat) :
+    ((tables.foldl (fun acc (x : Nat × List Nat) => setKey x.1 (x.2.foldl (fun c k => setKey k [] c) []) acc) acc).lookup t).isSome =
+      ((acc.lookup t).isSome || tables.any (·.1 == t)) := by
+  induction tables generalizing acc with
+  | nil => simp
+  | cons x xs ih =>
+    simp only [List.foldl_cons, ih, lookup_setKey, List.any_cons]
+    by_cases h : t = x.1
+    · subst h; simp
+    · have : (x.1 == t) = false := by simp; exact fun e => h e.symm
+      simp [h, this]
+
+theorem apply_tables_known (cfg : Cfg) (s : State) (op : Op) (t : Nat) :
+    ((apply cfg s op).1.tables.lookup t).isSome = (s.tables.lookup t).isSome := by
+  by_cases h : ∀ t r ign, op ≠ .row t r ign
+  · rw [apply_tables_frame cfg s op h]
+  · have : ∃ t' r ign, op = .row t' r ign := by
+      cases op <;> simp at h ⊢
+    obtain ⟨t', r, ign, rfl⟩ := this
+    simp only [apply, addTableRow]
+    cases hl : s.tables.lookup t' with
+    | none => rfl
+    | some tab =>
+      simp only []
+      split
+      · rfl
+      · simp only [lookup_setKey]
+        by_cases ht : t = t'
+        · subst ht; simp [hl]
+        · simp [ht]
+
+theorem run_tables_known (cfg : Cfg) (s : State) (ops : List Op) (t : Nat) :
+    ((run cfg s ops).tables.lookup t).isSome = (s.tables.lookup t).isSome := by
+  induction ops generalizing s with
+  | nil => rfl
+  | cons op ops ih =>
+    have := ih (apply cfg s op).1
+    simp only [run, List.foldl_cons] at this ⊢
+    rw [this, apply_tables_known]
+
+theorem tableFrame_unknown_iff (s : State) (t : Nat) : tableFrame s t = .error .unknown ↔ s.tables.lookup t = none := by
+  unfold tableFrame
+  cases hl : s.tables.lookup t with
+  | none => simp
+  | some tab =>
+    simp only []
+    cases rect (tab.map (·.2)) <;> simp
 
 /-! ### rejected table rows (C18) -/
 
